@@ -52,6 +52,7 @@ func main() {
 		var router *mux.Router
 		var client whttp.Witness
 		accepted := map[string]bool{}
+		lastRet := map[string][]byte{} // what the last accepted update of each log returned
 		o := wit.HistOpts{Gen: gen.Opts{NLogs: 1 + r.IntN(4), MaxSize: 30, Branches: 2, ShareKeys: true}, MinSteps: 8, MaxSteps: 30, Dir: dir}
 		h, err := wit.RunHistory(r, o, func(h *wit.Hist, s *wit.Step, i int) {
 			if router == nil {
@@ -62,6 +63,7 @@ func main() {
 			}
 			if s.Err == nil {
 				accepted[s.Req.LogID] = true
+				lastRet[s.Req.LogID] = s.Ret
 			}
 			u := h.Rn.U
 			detail := func(extra map[string]any) map[string]any {
@@ -82,6 +84,17 @@ func main() {
 			}
 			for _, l := range u.Logs {
 				want := s.After.CP[l.ID]
+				// the witness's own read is not the ground truth (it could be served from the same cache as the API):
+				// ground truth is what the last accepted update returned and what the store holds
+				if lr, ok := lastRet[l.ID]; ok && !bytes.Equal(lr, want) {
+					run.Violate("in_process_read_differs_from_last_accepted", "GetCheckpoint does not return the bytes the last accepted update returned", unit, detail(map[string]any{"last_accepted": string(lr), "read": string(want)}))
+					want = lr
+				}
+				if ro, err := h.Rn.Store.P.ReadOps(l.ID); err == nil {
+					if direct, derr := ro.GetLatest(); derr == nil && !bytes.Equal(direct, want) {
+						run.Violate("stored_bytes_differ_from_served", "the store holds other bytes than the witness serves", unit, detail(map[string]any{"stored": string(direct), "served": string(want)}))
+					}
+				}
 				rec := get(l.ID)
 				cb, cerr := client.GetLatestCheckpoint(context.Background(), l.ID)
 				run.Count("evaluations")
